@@ -121,7 +121,7 @@ func cmdList() {
 	}
 	var rows []row
 	for id, pi := range props {
-		rows = append(rows, row{id, pi.Level, pi.Explanation, pi.NotDecided})
+		rows = append(rows, row{id, pi.Level, fullExplanation(id, pi), pi.NotDecided})
 	}
 	sort.Slice(rows, func(i, j int) bool { return rows[i].ID < rows[j].ID })
 	b, _ := json.MarshalIndent(rows, "", " ")
